@@ -127,6 +127,9 @@ func (w *Reconciler) SyncOne(ctx context.Context, namespace, name string, _ int)
 func (w *Reconciler) sync(
 	ctx context.Context, rj *execution.Job, cfg *configv1alpha1.JobExecutionConfig, trace *utiltrace.Trace,
 ) (*execution.Job, error) {
+	// Keep the Job as it was read from the cache.
+	cachedRj := rj
+
 	// Kill timestamp is in the future, make sure that we sync again once it is due
 	// since nothing else may trigger a sync by then.
 	if ktime.IsTimeSetAndLater(rj.Spec.KillTimestamp) && !isDeleted(rj) {
@@ -153,9 +156,15 @@ func (w *Reconciler) sync(
 	}
 	rj = updatedRj
 
-	// Clean up Job if it is finished and beyond its TTL.
-	if err := w.handleTTLAfterFinished(ctx, rj, cfg); err != nil {
-		return rj, errors.Wrapf(err, "could not handle TTLAfterFinished")
+	// Clean up Job if it is finished and beyond its TTL. The finished condition has
+	// to be persisted first: deleting the Job before that would finalize it from a
+	// status that does not yet contain the final state of its tasks, and the Job
+	// would end up with a result that its tasks do not imply. Updating the status
+	// will trigger another sync.
+	if cachedRj.Status.Condition.Finished != nil {
+		if err := w.handleTTLAfterFinished(ctx, rj, cfg); err != nil {
+			return rj, errors.Wrapf(err, "could not handle TTLAfterFinished")
+		}
 	}
 	trace.Step("Handle TTLAfterFinished done")
 
